@@ -59,6 +59,7 @@ def run_path(text, method="collect", policy=None, delimiter=",", quotechar='"',
                          csvpaths=csvpaths, printer=printer)
         lines = None
         raised = None
+        kept = []
         try:
             if pre is not None:
                 pre(p)
@@ -70,7 +71,11 @@ def run_path(text, method="collect", policy=None, delimiter=",", quotechar='"',
                     lines = p.collect(nexts=nexts)
                 lines = [list(ln) for ln in lines]
             elif method == "next":
-                lines = [list(ln) for ln in p.next()]
+                # keep the yielded objects themselves too: `list(path.next())` is a documented use
+                for ln in p.next():
+                    kept.append(ln)
+                    lines = (lines or []) + [list(ln)]
+                lines = lines or []
             elif method == "fast_forward":
                 p.fast_forward()
             else:
@@ -79,6 +84,7 @@ def run_path(text, method="collect", policy=None, delimiter=",", quotechar='"',
             raised = core.Raised(e).to_json()
     res = state_of(p, cp, buf.getvalue() if want_stdout else None)
     res["lines"] = lines
+    res["lines_retained"] = [list(x) for x in kept] if method == "next" else None
     res["raised"] = raised
     res["headers"] = list(p._headers) if p._headers is not None else None
     res["_path"] = p
@@ -186,12 +192,14 @@ def run_next_with_snapshots(text, delimiter=",", quotechar='"'):
     buf = io.StringIO()
     snaps = []
     lines = []
+    kept = []
     raised = None
     with warnings.catch_warnings(), contextlib.redirect_stdout(buf):
         p, cp = new_path(delimiter=delimiter, quotechar=quotechar)
         try:
             p.parse(text)
             for ln in p.next():
+                kept.append(ln)
                 lines.append(list(ln))
                 st = state_of(p, cp)
                 st = copy.deepcopy({k: v for k, v in st.items() if k != "stopped"})
@@ -200,6 +208,7 @@ def run_next_with_snapshots(text, delimiter=",", quotechar='"'):
             raised = core.Raised(e).to_json()
     res = state_of(p, cp)
     res["lines"] = lines
+    res["lines_retained"] = [list(x) for x in kept]
     res["raised"] = raised
     res["snapshots"] = snaps
     return res
